@@ -102,3 +102,40 @@ def random_cond_prog(rnd, k, depth=2):
         out.append(tok())
         return out
     return Prog('rand/%d' % k, items(depth, rnd.randint(2, 4)), ['A', 'B'])
+
+
+KEPT_DIRECTIVES = ['`timescale 1ns/1ps', '`default_nettype none', '`celldefine', '`endcelldefine',
+                   '`unconnected_drive pull0', '`nounconnected_drive', '`resetall', '`line 3 "f.v" 1',
+                   '`pragma foo', '`begin_keywords "1800-2012"', '`end_keywords']
+
+
+def site_programs(tier, seed):
+    """texts exercising every emission site of the preprocessor (origin map, C03/C06/C18)"""
+    progs = []
+    # plain text with varied separators
+    for i, sep in enumerate([' ', '  ', '\n', '\t', ' \n  ']):
+        progs.append(Prog('site/plain/%d' % i, [T('a1', sep), T('bb2', sep), T('c3', '\n')], ['A']))
+    # kept directives between tokens
+    for i, kd in enumerate(KEPT_DIRECTIVES):
+        progs.append(Prog('site/kept/%d' % i, [T('p', '\n'), Kept(kd), T('q', '\n')], ['A']))
+    progs.append(Prog('site/undef', [T('p', '\n'), Undef('A'), T('q', ' '), UndefAll(), T('r', '\n')], ['A']))
+    progs.append(Prog('site/define', [T('p', '\n'), Def('B', 'x1 y2'), T('q', ' '), Def('A'), T('r', '\n')], ['A']))
+    # conditionals with text on the same line after `endif / trailing blanks
+    for i, es in enumerate(['\n', '   ', '  \n', ' ']):
+        for neg in (False, True):
+            progs.append(Prog('site/endif/%d/%s' % (i, 'n' if neg else 'p'),
+                              [T('h', '\n'), Cond(neg, [('A', [T('a', '\n')])], [T('e', '\n')], end_sep=es), T('q', '\n')], ['A']))
+            progs.append(Prog('site/endif-noelse/%d/%s' % (i, 'n' if neg else 'p'),
+                              [Cond(neg, [('A', [T('a', '\n')])], None, end_sep=es), T('q', '\n')], ['A']))
+    # macro usages: object-like, from caller table / defined in text, empty body, followed by blanks/text
+    for i, sep in enumerate([' ', '    ', '\n', '  \n']):
+        progs.append(Prog('site/use-caller/%d' % i, [T('h', ' '), Use('A', None, sep), T('q', '\n')], ['A']))
+        progs.append(Prog('site/use-text/%d' % i, [Def('M', 'm1  m2'), T('h', ' '), Use('M', None, sep), T('q', '\n')], ['A']))
+        progs.append(Prog('site/use-empty/%d' % i, [Def('M'), T('h', ' '), Use('M', None, sep), T('q', '\n')], ['A']))
+        progs.append(Prog('site/use-paren/%d' % i, [Def('M', 'm1'), T('h', ' '), Use('M', [], sep), T('q', '\n')], ['A']))
+    # macro whose body is an empty conditional (expansion is the empty string)
+    progs.append(Prog('site/use-emptycond', [Def('E', '`ifdef ZZ `endif', body_items=[Cond(False, [('ZZ', [])])]), Use('E', None, '    '), T('abc', '\n')], ['A']))
+    progs.append(Prog('site/position', [T('h', ' '), Use('__LINE__', None, ' '), T('m', '\n'), Use('__FILE__', None, ' '), T('q', '\n')], ['A']))
+    # comments
+    progs.append(Prog('site/comments', [T('a', ' '), Com('// c1'), T('b', ' '), Com('/* c2 */', ' '), T('c', '\n'), Com('/* m\n l */'), T('d', '\n')], ['A']))
+    return progs
